@@ -96,6 +96,10 @@ class DiscreteTimeInterpreter(TimeInterpreter):
             raise RTAMTException('evaluate: The input does not contain the time field')
         return
 
+    def gap(self, earlier, later):
+        # the difference of two time-stamps as they are written (0.52 - 0.41 is 0.11, not 0.11000000000000004)
+        return (Fraction(str(later)) - Fraction(str(earlier))) * Fraction(str(self.normalize))
+
     def update_sampling_violation_counter(self, duration):
         # time-stamps are expressed in the default unit, the period in its own unit; the period, the tolerance
         # and the gap are taken as they are written, so that a gap on the closed interval
